@@ -117,7 +117,7 @@ def pix(left, right, method, off, cc, rr, d) -> "float":
                 and 0 <= cc - off + d and cc - off + d < right.shape[1]) else np.nan)
 
 
-@contract("pandora.matching_cost.sad_ssd.SadSsd.compute_cost_volume", props=["C02"])
+@contract("pandora.matching_cost.sad_ssd.SadSsd.compute_cost_volume", props=["C02", "C09", "C13"])
 def _(self, img_left, img_right, cost_volume):
     types(self={"@attrs": {"_subpix": "int", "_band": "none", "_method": "str", "_window_size": "int"}},
           img_left={"vars": {"im": "f32[:,:]"}, "coords": {"col": "i64[:]"}, "sizes": {"row": "im.0", "col": "im.1"}},
